@@ -75,7 +75,7 @@ def units(ck, F):
         ck.missing("C20:UTF16:analyze_source_file", "abasic_lsp::analyze_source_file")
     else:
         pos = [c for c in az.calls() if c.callee.endswith("Position::new")]
-        ck.floor("C20.Position::new sites", len(pos), 2)
+        ck.floor("C20.Position::new sites", len(pos), 1)
         bad = [c for c in pos if only_casts_of_bytes(az, az.expr(c.args[1]))]
         ck.require(not bad, "C20:UTF16:analyze_source_file", "position units",
                    "diagnostic columns pass through a conversion that consults the line text",
@@ -252,9 +252,16 @@ def legend(ck, F):
     # the advertised legend is TOKEN_TYPES
     hc = F.one("handle_one_connection", "abasic_lsp")
     if hc is not None:
-        txt = " ".join(show(hc.expr(a)) for c in hc.calls() for a in c.args)
-        ok = any("TOKEN_TYPES" in (o.get("text", "") + o.get("item", "")) for blk in hc.blocks for st in blk["stmts"]
-                 if st["k"] == "assign" for o in _ops(st["rv"])) or "TOKEN_TYPES" in txt
+        # the capabilities literal may sit in handle_one_connection or in a helper of the server it calls
+        from lib import deep_calls
+        hosts = [hc] + [F.bodies[c.callee] for (_o, c) in deep_calls(F, hc, lambda p: p in F.bodies and F.bodies[p].crate == "abasic_lsp")
+                        if c.callee in F.bodies and F.bodies[c.callee].crate == "abasic_lsp"]
+        ok = False
+        for hb in hosts:
+            txt = " ".join(show(hb.expr(a)) for c in hb.calls() for a in c.args)
+            if any("TOKEN_TYPES" in (o.get("text", "") + o.get("item", "")) for blk in hb.blocks for st in blk["stmts"]
+                   if st["k"] == "assign" for o in _ops(st["rv"])) or "TOKEN_TYPES" in txt:
+                ok = True
         ck.require(ok, "C20:LEGEND:advertised", "legend", "the advertised legend is built from TOKEN_TYPES",
                    "handle_one_connection no longer advertises TOKEN_TYPES", hc.span, nontrivial=False)
 
@@ -280,7 +287,7 @@ def unfiltered(ck, F, ml):
                    "analyze_source_file filters or truncates the analyzer's messages (%s)" % skips, az.span)
     # both notification handlers analyse the text of the message they received and publish for its URI
     an = ml.calls_to("SourceFileAnalyzer::analyze")
-    ck.floor("C20.analysis call sites in main_loop", len(an), 2)
+    ck.floor("C20.analysis call sites in main_loop", len(an), 1)
     k = 0
     for c in an:
         k += 1
